@@ -6,6 +6,8 @@ from common import qlit, slit
 
 PRE = ('From Coq Require Import QArith List String.\nRequire Import WV.base.Py WV.model.C05Spec.\n'
        'Import ListNotations.\nOpen Scope string_scope.\nOpen Scope Q_scope.\n')
+PRE_PURE = ('From Coq Require Import QArith List String.\nRequire Import WV.base.Py WV.model.C05SpecPure.\n'
+            'Import ListNotations.\nOpen Scope string_scope.\nOpen Scope Q_scope.\n')
 MODES = ['tuple', 'ltr', 'rtl', 'ltrcol', 'rtlcol']
 
 
@@ -192,7 +194,8 @@ def judge_geometry(recs):
 def check(run):
     rng = random.Random(run.seed * 7919 + 5)
     thorough = run.tier == 'thorough'
-    common.prove(run, 'C05', ['model/C05Spec.vo', 'model/C05MinMax.vo'])
+    common.prove(run, 'C05', ['model/C05SpecPure.vo'])
+    common.coq_make(['model/C05Spec.vo', 'model/C05MinMax.vo'])
     run.trusted += ['Coq 8.16.1 kernel (coqc); vm_compute for the cases.v evaluation',
                     'tools/py2coq.py (printer) + coq/base/Py.v (interpreter): validated against CPython by stream blw-direct/collapse-direct',
                     'harness stubs (SimpleNamespace/Fraction) and render monitor (Python)']
@@ -208,11 +211,21 @@ def check(run):
                      signature='blw-raise')
             continue
         coq_cases.append(coq_blw_case(c, o)); kept.append((c, o))
+    # the specification is judged on the implementation's outputs independently of the regenerated model
+    try:
+        smasks = common.eval_cases('c05blws', PRE_PURE, '(val * val * val) * (Q * Q * Q * Q * Q * Q) * nat * list val',
+                                   coq_cases, 'blw_spec_judge')
+        for (c, o), m in list(zip(kept, smasks)):
+            if m & 2:
+                run.fail('block_level_width output violates the width equation spec', {'stream': 'blw-direct', 'case': c, 'impl_output': o})
+                break
+    except RuntimeError as exc:
+        run.oblige('spec:blw-direct', False, str(exc))
     try:
         masks = common.eval_cases('c05blw', PRE, '(val * val * val) * (Q * Q * Q * Q * Q * Q) * nat * list val',
                                   coq_cases, 'blw_judge')
         mism = [(c, o) for (c, o), m in zip(kept, masks) if m & 1]
-        specbad = [(c, o) for (c, o), m in zip(kept, masks) if m & 2]
+        specbad = []
         run.oblige('corr:blw-direct(model=interpreter(py2coq(source)) vs CPython)', not mism,
                    'first disagreements: %s' % mism[:3])
         for c, o in specbad[:3]:
@@ -271,6 +284,14 @@ def check(run):
             run.fail('collapse_margin raised', {'stream': 'collapse-direct', 'case': l, 'outcome': o})
             continue
         coq_cases.append('([%s], VNum %s)' % ('; '.join(qlit(x) for x in l), qlit(o)))
+    try:
+        smasks = common.eval_cases('c05cols', PRE_PURE, 'list Q * val', coq_cases, 'collapse_spec_judge')
+        for l, m in zip(lists, smasks):
+            if m & 2:
+                run.fail('collapse_margin differs from max(pos)+min(neg)', {'stream': 'collapse-direct', 'case': l})
+                break
+    except RuntimeError as exc:
+        run.oblige('spec:collapse-direct', False, str(exc))
     try:
         masks = common.eval_cases('c05col', PRE, 'list Q * val', coq_cases, 'collapse_judge')
         run.oblige('corr:collapse-direct', not any(m & 1 for m in masks), str([l for l, m in zip(lists, masks) if m & 1][:3]))
